@@ -56,7 +56,9 @@ type Disk struct {
 	Store  *simfs.Store
 	Master []byte // v1 master key / v2 encryption key
 	SigKey []byte // v2 signature key
-	nextID int
+	// PubRoot, when set, keeps v1 public keys in a directory of their own
+	PubRoot string
+	nextID  int
 }
 
 // Root of the v1 keystore on the simulated disk.
@@ -114,7 +116,11 @@ func Open(w *kernel.World, proc int, d *Disk, cache int) (*Handle, error) {
 		if err != nil {
 			return nil, err
 		}
-		ks, err := ksfs.NewCustomFilesystemKeyStore().KeyDirectory(Root).Encryptor(enc).
+		builder := ksfs.NewCustomFilesystemKeyStore().KeyDirectory(Root)
+		if d.PubRoot != "" {
+			builder = ksfs.NewCustomFilesystemKeyStore().KeyDirectories(Root, d.PubRoot)
+		}
+		ks, err := builder.Encryptor(enc).
 			Storage(&simfs.FaultFS{FS: d.FS, W: w, Proc: proc}).CacheSize(cache).Build()
 		if err != nil {
 			return nil, err
